@@ -13,6 +13,9 @@
 (*   permprf    PermutationFromPRF(key, iv, n) vs PRF(key, iv, u8[N]):      *)
 (*              Fisher-Yates, i = 1..n-1, j = generate_u32_in_range(i+1)    *)
 (*              (need_bytes per draw), swap(i, j)                           *)
+(*   permext    PermutationFromPRF(key, iv, n) continues                    *)
+(*              PermutationFromPRF(key, iv, n0), n0 < n: long sessions      *)
+(*              with draws of 3 and 4 bytes crossing the batch boundaries   *)
 (*   permrng    RandomPermutation(n) of a seeded evaluator: i = n-1..1,     *)
 (*              j = get_random_in_range(i+1), swap(j, i)                    *)
 (*   replay     the same seed twice gives identical sequences; generated    *)
@@ -63,16 +66,60 @@ RangeWalk(rr, bb, pos, kk) ==
 Swap(fn, ia, ib) == [fn EXCEPT ![ia] = fn[ib], ![ib] = fn[ia]]
 LeNat(sq, from, len) == LToNat(SubSeqF(sq, from, len))
 
-\* PermutationFromPRF: positions 0..n-1 are indices 1..n of the function
-RECURSIVE FyPrf(_, _, _, _, _)
-FyPrf(raw, pos, ii, nn, arr) ==
+\* One draw of generate_u32_in_range(mm) read at offset pos of the stream: need_bytes bytes, little-endian.  Draws of
+\* up to 3 bytes are TLC integers; longer ones (moduli above 2^16) are limb sequences: bound + 1 = 2^(8 nb) - (2^(8 nb)
+\* mod m) (U32Bound + 1 of module Rejection), accepted when below it, result draw mod m (Horner).
+NeedBytes(mm) == IF mm <= 1 THEN 1 ELSE IF mm <= 256 THEN 2 ELSE IF mm <= 65536 THEN 3 ELSE IF mm <= 16777216 THEN 4 ELSE 5
+ASSUME \A mm \in {1, 2, 3, 200, 255, 256, 257, 300, 65535, 65536, 65537, 70000, 16777215, 16777216, 16777217} :
+          NeedBytes(mm) = NeedUnits(mm, 8)
+P2L(nb) == [ii \in 1..(nb + 1) |-> IF ii = nb + 1 THEN 1 ELSE 0]       \* 2^(8 nb)
+Pow256 == <<256, 65536, 16777216>>
+ASSUME \A nb \in 1..3 : Pow256[nb] = RjPow2(8 * nb)
+\* little-endian number of nb <= 3 bytes at offset pos (= LeNat(raw, pos, nb), without the recursion)
+Le3(raw, pos, nb) == raw[pos + 1] + (IF nb >= 2 THEN 256 * raw[pos + 2] ELSE 0) + (IF nb >= 3 THEN 65536 * raw[pos + 3] ELSE 0)
+DrawOk(raw, pos, mm) == LET nb == NeedBytes(mm) IN
+  IF nb <= 3 THEN Accepted(Le3(raw, pos, nb), U32Bound(Pow256[nb] - 1, mm))
+  ELSE LET pp == P2L(nb) IN LLess(LPad(SubSeqF(raw, pos, nb), nb + 1), LSub(pp, LFromNat(LModNat(pp, mm), nb + 1)))
+DrawRes(raw, pos, mm) == LET nb == NeedBytes(mm) IN
+  IF nb <= 3 THEN Reduce(Le3(raw, pos, nb), mm) ELSE LModNat(SubSeqF(raw, pos, nb), mm)
+ASSUME \A mm \in {2, 3, 255, 256, 257, 300, 65535, 65536} :     \* the two forms agree (here on the bytes 250, 255, 255)
+          LET raw == <<250, 255, 255, 0, 0>>  nb == NeedBytes(mm)  pp == P2L(nb) IN
+          /\ DrawOk(raw, 0, mm) = LLess(LPad(SubSeqF(raw, 0, nb), nb + 1), LSub(pp, LFromNat(LModNat(pp, mm), nb + 1)))
+          /\ DrawRes(raw, 0, mm) = LModNat(SubSeqF(raw, 0, nb), mm)
+          /\ Le3(raw, 0, nb) = LeNat(raw, 0, nb)
+
+\* PermutationFromPRF: positions 0..n-1 are indices 1..n of the function.  Steps ii..(upto-1) of the shuffle
+\* (i = 1..n-1, j = generate_u32_in_range(i+1), swap(i, j)) starting at offset pos of the stream with array arr.
+\* The recursion is cut into chunks of FyChunk steps (bounded depth for long sessions).
+FyChunk == 400
+RECURSIVE FyTo(_, _, _, _, _)
+FyTo(raw, pos, ii, upto, arr) ==
+  IF ii >= upto THEN [pos |-> pos, arr |-> arr]
+  ELSE IF DrawOk(raw, pos, ii + 1)
+       THEN FyTo(raw, pos + NeedBytes(ii + 1), ii + 1, upto, Swap(arr, ii + 1, DrawRes(raw, pos, ii + 1) + 1))
+       ELSE FyTo(raw, pos + NeedBytes(ii + 1), ii, upto, arr)
+RECURSIVE FyFrom(_, _, _, _, _)
+FyFrom(raw, pos, ii, nn, arr) ==
   IF ii >= nn THEN arr
-  ELSE LET nb == NeedUnits(ii + 1, 8)
-           mx == RjPow2(8 * nb) - 1
-           dr == LeNat(raw, pos, nb) IN
-       IF Accepted(dr, U32Bound(mx, ii + 1))
-       THEN FyPrf(raw, pos + nb, ii + 1, nn, Swap(arr, ii + 1, Reduce(dr, ii + 1) + 1))
-       ELSE FyPrf(raw, pos + nb, ii, nn, arr)
+  ELSE LET nx == IF ii + FyChunk < nn THEN ii + FyChunk ELSE nn
+           st == TLCEval(FyTo(raw, pos, ii, nx, arr)) IN
+       FyFrom(raw, st.pos, nx, nn, st.arr)
+FyPrf(raw, pos, ii, nn, arr) == FyFrom(raw, pos, ii, nn, arr)
+\* the offset in the stream behind the draws of steps ii..(upto-1) (the array is not needed for it)
+RECURSIVE WalkTo(_, _, _, _)
+WalkTo(raw, pos, ii, upto) ==
+  IF ii >= upto THEN pos
+  ELSE WalkTo(raw, pos + NeedBytes(ii + 1), IF DrawOk(raw, pos, ii + 1) THEN ii + 1 ELSE ii, upto)
+RECURSIVE WalkFrom(_, _, _, _)
+WalkFrom(raw, pos, ii, upto) ==
+  IF ii >= upto THEN pos
+  ELSE LET nx == IF ii + FyChunk < upto THEN ii + FyChunk ELSE upto
+           px == TLCEval(WalkTo(raw, pos, ii, nx)) IN
+       WalkFrom(raw, px, nx, upto)
+\* permext: the shuffle of n1 elements continues the shuffle of n0 < n1 elements (same key and counter, hence the same
+\* stream): steps n0..n1-1 applied to perm0, extended by the identity, at the offset behind the draws of steps 1..n0-1
+ExtendId(pm, n0, n1) == [ii \in 1..n1 |-> IF ii <= n0 THEN pm[ii] ELSE ii - 1]
+FyExt(rr) == FyFrom(rr.raw, WalkFrom(rr.raw, 0, 1, rr.n0), rr.n0, rr.n, TLCEval(ExtendId(rr.perm0, rr.n0, rr.n)))
 \* RandomPermutation: i from n-1 down to 1, 8 bytes per draw
 RECURSIVE FyRng(_, _, _, _)
 FyRng(raw, pos, ii, arr) ==
@@ -95,6 +142,9 @@ RjFacets(rr) ==
     [] rr.kind = "permprf" ->
          << <<"permutation", IsPermutation(rr.perm, rr.n)>>,
             <<"fisher_yates", rr.perm = FyPrf(rr.raw, 0, 1, rr.n, Identity(rr.n))>> >>
+    [] rr.kind = "permext" ->
+         << <<"permutation", IsPermutation(rr.perm, rr.n) /\ IsPermutation(rr.perm0, rr.n0)>>,
+            <<"fisher_yates", rr.perm = FyExt(rr)>> >>
     [] rr.kind = "permrng" ->
          << <<"permutation", IsPermutation(rr.perm, rr.n)>>,
             <<"fisher_yates", rr.perm = FyRng(rr.raw, 0, rr.n - 1, Identity(rr.n))>> >>
